@@ -13,7 +13,7 @@ import numpy as np
 
 import e2e
 import models as M
-from common import Check, MachineryError, main_wrapper, run_tlc, run_workers, worker_main
+from common import handle_crash, Check, MachineryError, main_wrapper, run_tlc, run_workers, worker_main
 
 TOL = 2e-10
 
@@ -265,7 +265,8 @@ def main():
     ck.log("model: %s; replaying %d configurations + layer identities" % (r, len(chosen)))
     for res in run_workers(os.path.abspath(__file__), jobs, nproc=16, timeout=7000):
         if "crash" in res:
-            raise MachineryError("worker crashed: %s\n%s" % (res["crash"], res.get("tb")))
+            handle_crash(ck, res)
+            continue
         job = jobs[res["id"]]
         ck.evaluations += res["n"]
         if "cfg" in job:
